@@ -64,9 +64,9 @@ CHECKS = {
    text='Per generated scenario the fault-free run fixes the list of store calls and each is then failed once (exhaustive over single faults), with further random multi-fault / delay plans; the call log must show every shard upload preceded by successful puts of all xorbs its records reference, an injected failure must surface as an error of add_data / finish / finalize, and a session reporting success must download byte-exactly. Fault enumeration is the right level: the property quantifies over which call fails.',
    note="Runs through the repository's local file-system store (LocalClient) wrapped in a tracing client injected through the guarded hook; configurations are process environments (debug-assertion builds read the size constants from HF_XET_*). Concurrent cleaning samples OS schedules."),
  "C12": dict(level="exploration", design="3/C12",
-   technique='property-based testing with stateful histories: generated put / get / re-open / damage programs (bit bursts, truncation, extension, deletions, junk and cache-item-shaped names at every directory level, renames, swaps) and concurrent batches under a harness-owned schedule (guarded schedule points); oracle = virtual-xorb model (every chunk a pure function of key and index), panics caught, journaled child processes',
+   technique='property-based testing with stateful histories: generated put / get / re-open / damage programs (bit bursts, truncation, extension, deletions, junk and cache-item-shaped names at every directory level, renames, swaps, identity-preserving range forgeries) and concurrent batches under a harness-owned schedule (guarded schedule points); oracle = virtual-xorb model (every chunk a pure function of key and index), panics caught, journaled child processes',
    text="Every hit returned during generated histories (sequential, and 2-3 threads interleaved by generated schedules) must equal the slice of the key's virtual xorb; damaged / planted / renamed entries must turn into misses or errors after re-open; initialize, put and get must not panic. Exploration over histories, damage programs and schedules.",
-   note='Forged entries (consistent length+CRC identity under another name) are outside the fault model. The cache crate is built without its debug-only assertions (production semantics). Interleavings at schedule-point granularity.'),
+   note='Forged entries (renamed / planted under a name that keeps the length+CRC identity but claims another range): the content of hits cannot be judged by any implementation of this format, so after a forge only panics are judged (stream forged). The cache crate is built without its debug-only assertions (production semantics). Interleavings at schedule-point granularity.'),
  "C13": dict(level="exploration", design="3/C13",
    technique='schedule-controlled concurrency testing: generated operation batches for 2-3 threads run under generated schedules (one thread at a time, schedule = shrinkable Vec<u8>), plus bounded-exhaustive enumeration of ALL grant sequences for five canonical racing pairs; oracle = accounting invariants from the guarded read-only snapshot and the directory listing at every quiescent point',
    text='At every quiescent point the reported item count and byte total must equal the tracked entries, every cache file on disk must be tracked, after reading entries back totals must equal the files on disk (entries that lost their file to a racing deletion excepted, as the property allows), and the byte total never exceeds the capacity after a put; re-opening with the same capacity preserves this. Canonical pairs are enumerated exhaustively at schedule-point granularity, larger batches are sampled.',
